@@ -520,8 +520,31 @@ def check_never_equal(idx, run):
     c17.check_verdicts(idx, Proxy())
 
 
+def check_integer_subscripts(idx, run):
+    """C08.R6: subscripts are handed to SymPy, which treats `/` as exact
+    division and MOD as the mathematical modulo (C17-a).  A subscript such as
+    i/2 or MOD(i, 2) maps different iterations to the same element, so the
+    analysis has to treat subscripts that divide the loop variable
+    conservatively before it trusts the symbolic answer."""
+    cls = idx.get_class(
+        "psyclone.psyir.tools.dependency_tools.DependencyTools")
+    txt = " ".join(ast.unparse(cls.node).split())
+    facts = ("Operator.DIV", "Intrinsic.MOD", "Intrinsic.INT", "floor",
+             "is_integer_division", "_has_division")
+    run.check(
+        "C08.R6", any(f in txt for f in facts), "DependencyTools",
+        "subscripts that divide the loop variable are treated "
+        "conservatively",
+        "nothing in DependencyTools looks for integer division or MOD in a "
+        "subscript before the symbolic comparison: `do i: b(i/2) = a(i,1)` "
+        "is reported parallelisable although iterations 2k and 2k+1 write "
+        "the same element (SymPy sees the injective i/2)",
+        loc(cls.module, cls.node))
+
+
 def check(idx, run):
     run.explanation = __doc__
+    check_integer_subscripts(idx, run)
     from rules.common_parallel import check_fresh_unknown
     check_fresh_unknown(idx, run, "C08.R5")
     eff = Effects(idx)
